@@ -15,6 +15,16 @@ CHECKS = {
    "Hundreds of thousands of generated block trees (valid regtest PoW, forks up to 20 deep, equal-work ties, branches with a bad-PoW block, trees deeper than the 1008-header cache) served by a scripted BlockSource with one injected fault per call (transient/persistent errors, bad-PoW or non-connecting or altered headers, foreign or tampered blocks); every Listen notification of SpvClient::poll_best_tip and synchronize_listeners is replayed against an independent cursor over the harness's own tree: disconnect names a true ancestor, connects are the cursor's children in ascending order, the tip only moves to strictly more work, faulted calls leave a prefix of the fault-free walk and the next fault-free poll produces exactly the missing suffix. Search, not proof.",
    "The source's height/chainwork metadata is honest for valid connecting headers (a lying-metadata source is outside the property and kept as an opt-in part); REST/RPC clients are not exercised; regtest difficulty only.",
    "DESIGN.md §6 C20"),
+ "C05": ("netsim", "exploration",
+   "stateful property-based testing with a recording signer; invariants over the history of signer calls, wire messages and broadcasts; adversarial sub-profile corrupting revocation secrets in flight",
+   "Generated two-node schedules (frequent disconnect/reconnect with retransmission of revoke_and_ack / commitment_signed in either order, async persistence, user force-closes) in which every release_commitment_secret, sign_counterparty_commitment, sign_holder_commitment, sign_holder_htlc_transaction, revoke_and_ack on the wire and broadcast transaction is checked against the revocation rules (secret released in order and only after the newer signed commitment was delivered; revoked commitments never signed or broadcast again; at most one unrevoked predecessor when signing; secrets match announced points); a second part flips bits in a queued revoke_and_ack and requires rejection without the secret being persisted. Search, not proof.",
+   "ECDSA in-memory signer path only; restarts are covered under C10; validate_holder_commitment / validate_counterparty_revocation are not observable through the test signer (noted in DESIGN §2.1).",
+   "DESIGN.md §6 C05"),
+ "C15": ("vprop", "exploration",
+   "property-based testing of PeerManager through in-memory sockets: LDK-LDK differential with generated fragmentation/back-pressure, and an independent BOLT-8 reference peer (own ChaCha20-Poly1305/HKDF/Noise_XK, validated against the BOLT-8 and RFC 8439 vectors at start-up) injecting faults",
+   "Generated message sequences (0..65533-byte payloads, up to 3600 messages per direction so that key rotations are crossed) between two PeerManagers under generated read cuts and write budgets must arrive exactly and in order; an independent BOLT-8 implementation playing initiator or responder checks key agreement, byte-for-byte ciphertext equality, and that every tampered, truncated, replayed, swapped or wrongly keyed handshake act, length header or body makes read_event fail with nothing from the affected unit (or after it) reaching a handler, that nothing but Init is acted on before Init, and that arbitrary bytes never panic. Search, not proof.",
+   "The in-memory driver honours the SocketDescriptor contract; lightning-net-tokio itself is not exercised; gossip broadcasts are excluded from the delivery oracle by design; message codecs are trusted here (C13).",
+   "DESIGN.md §6 C15"),
 }
 
 NOT_YET = {
